@@ -434,6 +434,11 @@ fn run_suite<S: ShortGroupSignatureScheme>(v: &Value, ps: bool) -> Value {
                         rep.insert(format!("l{i}"), NumberClaim::from(7).into());
                     }
                 }
+                "reported_reorder" => {
+                    // the same reported claims, listed in the opposite order: a map is a map
+                    let r: Vec<(String, ClaimData)> = rep.iter().map(|(k, c)| (k.clone(), c.clone())).rev().collect();
+                    rep = r.into_iter().collect();
+                }
                 "false_reported_omit" => {
                     if let Some(&i) = disc_idx.first() {
                         rep.shift_remove(&format!("l{i}"));
